@@ -120,6 +120,34 @@ def check_covariance(seed):
     exp = L @ stub.last + np.asarray(drifts).reshape(-1, 1)
     if out.shape != exp.shape or not np.allclose(out, exp, rtol=1e-9, atol=1e-12):
         return f"log-returns are not L.Z + drift with L.L^T = diag(vol).C.diag(vol) for the configured correlations {dict(f.correlation)}"
+    # a correlation that already exists is given another value (or a volatility another value) after a chunk has been generated: the next chunk follows the NEW parameters
+    # (round 11: a factor kept across chunks under a key that names the correlated pairs but not their values)
+    set_pairs = [(a, b) for a, b in pairs if C[a, b] != 0.0]
+    for rnd in range(2):
+        if set_pairs and rng.random() < 0.8:
+            a, b = rng.choice(set_pairs)
+            c2 = rng.choice([c for c in (0.3, -0.3, 0.6, -0.5) if c != C[a, b]])
+            C2 = C.copy(); C2[a, b] = C2[b, a] = c2
+            try:
+                np.linalg.cholesky(C2)
+            except np.linalg.LinAlgError:
+                continue
+            C = C2
+            if rng.random() < 0.5:
+                f.set_correlation(a, b, c2, time=length)
+            else:
+                f.set_correlation(b, a, c2, time=length)
+        else:
+            m1 = rng.randrange(n)
+            vols[m1] = rng.choice([v for v in (0.01, 0.02, 0.05) if v != vols[m1]])
+            f.change_volatility(m1, vols[m1], length)
+        stub = StubNp(seed + 1000 + rnd); f._np_prng = stub
+        out = f._generate_log_return(generate_target_ids=ids, length=length)
+        L = np.linalg.cholesky(np.diag(vols) @ C @ np.diag(vols))
+        exp = L @ stub.last + np.asarray(drifts).reshape(-1, 1)
+        if out.shape != exp.shape or not np.allclose(out, exp, rtol=1e-9, atol=1e-12):
+            return (f"after a parameter was given a new value (chunk {rnd + 2}) the log-returns are not L.Z + drift with L.L^T = diag(vol).C.diag(vol) for the "
+                    f"CURRENT correlations {dict(f.correlation)} and volatilities {vols}")
     return None
 
 
